@@ -59,6 +59,7 @@ func inflightDir() string {
 type input struct {
 	Class string
 	B     []byte
+	Aux   int64 // workload specific (TestC12Sized: the drawn MaxMessageSize)
 }
 
 type batch struct {
@@ -73,14 +74,16 @@ type batch struct {
 	nbatches  int
 	hash      hash.Hash
 
-	finding  *finding
-	inconcl  string
-	classes  map[string]int64
-	accepted map[string]int64 // by message type
-	errors   int64
-	messages int64
-	bytesIn  int64
-	maxLen   int
+	finding   *finding            // the finding the case reports
+	findings  map[string]*finding // first finding per key (exploration continues after a finding, up to maxKeysPerCase keys)
+	nfindings int64
+	inconcl   string
+	classes   map[string]int64
+	accepted  map[string]int64 // by message type
+	errors    int64
+	messages  int64
+	bytesIn   int64
+	maxLen    int
 }
 
 func newBatch(c *vrun.Case, workload string, e enc) *batch {
@@ -89,13 +92,19 @@ func newBatch(c *vrun.Case, workload string, e enc) *batch {
 		judgeFn: func(e enc, in input) (outcome, *finding) { return judge(e, in.Class, in.B) }}
 }
 
-func (b *batch) stopped() bool { return b.finding != nil || b.inconcl != "" }
+const maxKeysPerCase = 6
 
-func (b *batch) add(class string, in []byte) {
+func (b *batch) stopped() bool {
+	return b.finding != nil || b.inconcl != "" || len(b.findings) >= maxKeysPerCase
+}
+
+func (b *batch) add(class string, in []byte) { b.addAux(class, in, 0) }
+
+func (b *batch) addAux(class string, in []byte, aux int64) {
 	if b.stopped() || len(in) > maxInput {
 		return
 	}
-	b.pend = append(b.pend, input{class, in})
+	b.pend = append(b.pend, input{class, in, aux})
 	b.pendBytes += len(in)
 	if len(b.pend) >= 512 || b.pendBytes >= 2<<20 {
 		b.flush()
@@ -149,9 +158,6 @@ func (b *batch) flush() {
 			results[i] = one{o, f}
 			progress = int64(i + 1)
 			mu.Unlock()
-			if f != nil {
-				return
-			}
 		}
 	})
 	if !ok {
@@ -181,9 +187,15 @@ func (b *batch) flush() {
 	for i, in := range pend {
 		r := results[i]
 		if r.f != nil {
-			r.f.Witness["input_ordinal"] = b.ordinal + i
-			b.finding = r.f
-			break
+			b.nfindings++
+			if b.findings == nil {
+				b.findings = map[string]*finding{}
+			}
+			if b.findings[r.f.Key] == nil {
+				r.f.Witness["input_ordinal"] = b.ordinal + i
+				b.findings[r.f.Key] = r.f
+			}
+			continue
 		}
 		b.hash.Write([]byte{byte(len(in.B)), byte(len(in.B) >> 8)})
 		b.hash.Write(in.B)
@@ -214,6 +226,18 @@ func keepInflight(p string) {
 // finish turns the batch state into the case result. desc describes the generated scenario.
 func (b *batch) finish(desc map[string]any) vrun.Result {
 	b.flush()
+	if b.finding == nil && len(b.findings) > 0 {
+		// Several defects can show in one case but a case carries one finding key: pick one as a function of the case index
+		// so that over the cases every key surfaces; the others are listed in the witness.
+		keys := make([]string, 0, len(b.findings))
+		for k := range b.findings {
+			keys = append(keys, k)
+		}
+		sort.Strings(keys)
+		b.finding = b.findings[keys[b.c.Index%len(keys)]]
+		b.finding.Witness["all_finding_keys_of_this_case"] = keys
+		b.finding.Witness["inputs_with_a_finding_in_this_case"] = b.nfindings
+	}
 	if b.finding != nil {
 		r := vrun.Violation(b.finding.Clause, b.finding.Key, b.finding.Witness)
 		r.Desc = desc
